@@ -32,6 +32,7 @@ FI_JOB = job("fi",
     args=lambda tier, seed, k, profile: ["--seed", seed, "--segments", 6 if tier == Q else 8, "--events", 350 + 50 * (k % 4),
                                          "--maxlg", 8 if tier == Q else (11 if k % 5 == 0 else 9),
                                          "--big", 1 if (tier == T and k % 5 == 0) else 0,
+                                         "--slotadv", 1 if tier == Q else 2,    # keys mined by home slot (layout-adversarial purge points)
                                          "--serde", 20 if profile == "serde" else 3],
     nontrivial=fi_nontrivial,
     rec_timeout=240,     # a recording takes seconds; a driver that hangs inside the library is reported as a crash
